@@ -32,6 +32,7 @@ impl RequestHandler<DocumentSymbolRequest> for DocumentSymbolRequestHandler {
                         codegen,
                         filename: file.file.name(),
                         recurse: false,
+                        visiting: vec![],
                     };
                     let docsyms = emitter.emit_document_symbols(&file.tokens, None);
                     let document_symbols = docsyms
@@ -60,6 +61,7 @@ impl RequestHandler<WorkspaceSymbol> for WorkspaceSymbolHandler {
                         codegen,
                         filename: file.file.name(),
                         recurse: true,
+                        visiting: vec![],
                     };
                     let docsyms = emitter.emit_document_symbols(&file.tokens, None);
                     let workspace_symbols = docsyms
@@ -131,6 +133,8 @@ struct DocSymEmitter<'a> {
     codegen: Arc<Mutex<CodegenContext>>,
     filename: &'a str,
     recurse: bool,
+    /// The files that led to this one (files that import each other would be followed forever)
+    visiting: Vec<&'a str>,
 }
 
 impl<'a> DocSymEmitter<'a> {
@@ -164,13 +168,19 @@ impl<'a> DocSymEmitter<'a> {
                 let mut result = vec![];
                 if self.recurse {
                     if let Some(file) = self.tree.try_get_file(&resolved_path) {
-                        let emitter = DocSymEmitter {
-                            tree: self.tree,
-                            codegen: self.codegen.clone(),
-                            filename: file.file.name(),
-                            recurse: self.recurse,
-                        };
-                        result.extend(emitter.emit_document_symbols(&file.tokens, None));
+                        let name = file.file.name();
+                        if name != self.filename && !self.visiting.contains(&name) {
+                            let mut visiting = self.visiting.clone();
+                            visiting.push(self.filename);
+                            let emitter = DocSymEmitter {
+                                tree: self.tree,
+                                codegen: self.codegen.clone(),
+                                filename: name,
+                                recurse: self.recurse,
+                                visiting,
+                            };
+                            result.extend(emitter.emit_document_symbols(&file.tokens, None));
+                        }
                     }
                 }
 
